@@ -48,7 +48,7 @@ func isStateInterfaceMethod(p *Prog, callee string) bool {
 func init() {
 	register("C03", &PropDef{
 		Explain: "Structural necessary conditions of 'concurrent use of the API is free of data races and deadlocks' (classical lock-set analysis; races on user-shared data and third-party internals are not decided): (R1) guarded-by table over packages ebu and state: every access to a guarded field/map happens with the lock of the same object held, in write mode for writes, on every path from every exported root and escaping closure; unlock pairing; no root left with a lock held; (R2) who-may-write: configuration fields of EventBus, the upcast registry's error handler, materializer/sqlite/durable-streams configuration and store fields and registration flags are stored to only by option closures, constructors (object not yet shared) and the Set* setters; package-level variables have no run-time writer; (R3) the once claim word is touched only through sync/atomic; (R4) no user callback (handler, filter, hook, panic/persistence/upcast error handler, observability, iterator yield) is invoked while a bus lock is held, minus a table of reasoned exceptions — the structural reason re-entrant calls from handlers cannot self-deadlock; (R5) lock-order graph over lock classes is acyclic (thorough tier resolves interface calls to the bundled implementations); the sequential lock held across user code yields the cross-registration cycle recorded as a known finding; (R6) WaitGroup protocol: a positive Add reachable from one exported function concurrently with Wait from another, with nothing ordering them, is the documented misuse (known finding).",
-		Run: runC03,
+		Run:     runC03,
 		Thorough: func(c *Ctx) {
 			runC03LockOrder(c, true)
 		},
@@ -146,8 +146,8 @@ func runC03LockOrder(c *Ctx, resolve bool) {
 	res := runLocksFull(p, busGuards(R), map[string]bool{PkgBus: true, PkgState: true}, resolve, busImmutable(R))
 	c.Stats["product_states"] += res.States
 	allowed := map[string]string{
-		"EventBus.storeMu -> MemoryStore.mu":    "persist appends to the bundled memory store while serialising appends",
-		"Materializer.mu -> MemoryStore.mu":     "reset clears the bundled in-memory collections under the materializer lock",
+		"EventBus.storeMu -> MemoryStore.mu":     "persist appends to the bundled memory store while serialising appends",
+		"Materializer.mu -> MemoryStore.mu":      "reset clears the bundled in-memory collections under the materializer lock",
 		"upcastRegistry.mu -> upcastRegistry.mu": "",
 	}
 	var edges []string
@@ -253,7 +253,7 @@ func checkWaitGroupProtocol(c *Ctx, p *Prog, R *BusRoles, rule string) {
 	}
 	for _, a := range adds {
 		for _, w := range waits {
-			construct := "EventBus." + R.BusWG + "/Add-in-" + FuncDisplay(a.fn) + "/vs/Wait-in-" + FuncDisplay(w.fn)
+			construct := "bus-wait-group/Add-in-" + FuncDisplay(a.fn) + "/vs/Wait-in-" + FuncDisplay(w.fn)
 			c.Violate(rule, construct, a.pos,
 				"Add(1) on the bus wait group (reachable from the exported "+FuncDisplay(a.fn)+") can start from a zero counter while another goroutine is inside Wait (exported "+FuncDisplay(w.fn)+"); nothing orders the two. sync.WaitGroup documents this as misuse: the race detector reports it and the runtime can panic with 'WaitGroup is reused before previous Wait has returned'", nil)
 		}
